@@ -122,6 +122,7 @@ int main(int argc, char **argv)
 	thorough = a.thorough;
 	vw_init();
 	xp_init("C18", a.tier, 1024, a.budget_s);
+	xp_guard("!C18", NULL, 0);
 	mkjobs();
 	if (a.replay) { job(xp_load_replay(a.replay)); return 0; }
 	hc_quiet();
